@@ -314,12 +314,12 @@ var (
 	labelVals   = []string{"api", "api-server", "apiserver", "prod", "pro", "a.b", "aXb", "1", "10", "it's", `a\b`, `q"q`, "ü", "x y", "+Inf", "0.5"}
 	// per-name pools (small, so that series share values and selections are neither empty nor total)
 	labelVocab = map[string][]string{
-		"job":      {"api", "api-server", "apiserver", "prod"},
+		"job":      {"api", "api-server", "apiserver", "prod", "api_server", "API", "a%i"},
 		"instance": {"1", "10", "a.b", "aXb"},
-		"env":      {"prod", "pro", "it's"},
+		"env":      {"prod", "pro", "it's", "pr_d", "Prod", "p.od"},
 		"le":       {"+Inf", "0.5", "1", "10"},
 		"a_b":      {`a\b`, `q"q`, "ü", "a.b"},
-		"path":     {"x y", "api", "a.b"},
+		"path":     {"x y", "api", "a.b", "/api/%", "/api/v1", "a+b", "a|b"},
 	}
 )
 
@@ -364,17 +364,30 @@ func genMDB(rt *rapid.T, maxSeries int, genSamples func(rt *rapid.T, i int) ([]i
 	fps := map[uint64]bool{}
 	for i := 0; i < n; i++ {
 		var ls [][2]string
-		// almost every Prometheus series has a name; remote write does not enforce it
-		if chance(rt, 92, "hasName") {
-			ls = append(ls, [2]string{"__name__", pick(rt, metricNames, "metric")})
-		}
-		for _, ln := range labelNames {
-			if chance(rt, 45, "hasLabel") {
-				ls = append(ls, [2]string{ln, pick(rt, valsOf(ln), "val")})
+		if len(db.Series) > 0 && chance(rt, 55, "mutant") {
+			// near-collision: a copy of an earlier series in which one label value is replaced
+			// by a neighbour under pattern semantics (neighbours.go), or one label is dropped
+			parent := &db.Series[between(rt, 0, len(db.Series)-1, "parent")]
+			ls = append(ls, parent.Labels...)
+			k := between(rt, 0, len(ls)-1, "mutLabel")
+			if len(ls) > 1 && chance(rt, 12, "dropLabel") {
+				ls = append(ls[:k:k], ls[k+1:]...)
+			} else {
+				ls[k] = [2]string{ls[k][0], pick(rt, neighbours(ls[k][1]), "neighbour")}
 			}
-		}
-		if len(ls) == 0 {
-			ls = append(ls, [2]string{"job", pick(rt, labelVals, "val")})
+		} else {
+			// almost every Prometheus series has a name; remote write does not enforce it
+			if chance(rt, 92, "hasName") {
+				ls = append(ls, [2]string{"__name__", pick(rt, metricNames, "metric")})
+			}
+			for _, ln := range labelNames {
+				if chance(rt, 45, "hasLabel") {
+					ls = append(ls, [2]string{ln, pick(rt, valsOf(ln), "val")})
+				}
+			}
+			if len(ls) == 0 {
+				ls = append(ls, [2]string{"job", pick(rt, labelVals, "val")})
+			}
 		}
 		// stored document order is the order the client sent: any permutation
 		if chance(rt, 30, "permute") && len(ls) > 1 {
@@ -411,6 +424,9 @@ func genMDB(rt *rapid.T, maxSeries int, genSamples func(rt *rapid.T, i int) ([]i
 // non-empty matcher"), the generator keeps that precondition.
 func genMatchers(rt *rapid.T, db *mDB, max int) []mMatcher {
 	n := rapid.IntRange(1, max).Draw(rt, "nmatchers")
+	if max > 8 {
+		n = between(rt, 9, max, "manyMatchers") // wider than the UInt8 HAVING bit mask used to be
+	}
 	var out []mMatcher
 	// most matchers describe one "focus" series, so that their conjunction is satisfiable
 	focus := between(rt, 0, len(db.Series)-1, "focus")
